@@ -25,6 +25,10 @@ type DB struct {
 
 var ErrInvalidMagic = errors.New("invalid magic")
 
+// maxHeaderLen is the largest valid value of the header length field (the length of the header after the magic and the length itself):
+// value size, number of buckets, version, and the largest metadata that indexmeta can encode.
+const maxHeaderLen = 8 + 4 + 1 + 1 + indexmeta.MaxNumKVs*(1+indexmeta.MaxKeySize+1+indexmeta.MaxValueSize)
+
 // Open returns a handle to access a compactindex.
 //
 // The provided stream must start with the Magic byte sequence.
@@ -43,6 +47,10 @@ func Open(stream io.ReaderAt) (*DB, error) {
 		return nil, ErrInvalidMagic
 	}
 	size := binary.LittleEndian.Uint32(magicAndSize[8:])
+	if size > maxHeaderLen {
+		// The length comes from the file: do not allocate (or wrap around in 8+4+size) on its word.
+		return nil, fmt.Errorf("invalid header length: %d > %d", size, maxHeaderLen)
+	}
 	fileHeaderBuf := make([]byte, 8+4+size)
 	n, readErr = stream.ReadAt(fileHeaderBuf, 0)
 	if n < len(fileHeaderBuf) {
